@@ -414,6 +414,18 @@ pub struct IterOut {
 }
 
 pub const N_FIN: u8 = 13;
+/// `fin >= FIN_EXT` selects the second family of consumption paths
+pub const FIN_EXT: u8 = 221;
+pub const N_FIN_EXT: u8 = 9;
+pub const FIN_EXT_NAMES: [&str; 9] = ["for_each", "rev.for_each", "find", "rfind", "position", "any", "all", "max_by_key", "by_ref.rev.take.count+for_each"];
+
+pub fn fin_name(fin: u8) -> &'static str {
+    if fin >= FIN_EXT {
+        FIN_EXT_NAMES[((fin - FIN_EXT) % N_FIN_EXT) as usize]
+    } else {
+        FIN_NAMES[(fin % N_FIN) as usize]
+    }
+}
 pub const FIN_NAMES: [&str; 13] = ["count", "last", "nth", "nth_back", "fold", "rev", "skip", "step_by", "by_ref.take.count", "rfold", "rev.last", "skip.next_back", "for-break-rev"];
 
 /// Consume the rest of an iterator through one of the paths the standard library offers
@@ -426,12 +438,80 @@ where
     I: DoubleEndedIterator + ExactSizeIterator,
     F: FnMut(I::Item) -> (i32, i64),
 {
-    let mode = fin % N_FIN;
-    let arg = (fin / N_FIN) as usize; // 0..=19
     let m = it.len();
-    let k = arg % (m + 3);
     let mut items = Vec::new();
     let mut lens = vec![m];
+    if fin >= FIN_EXT {
+        // second family (added later; encoded in the top of the range so that stored replays
+        // keep their meaning): internal-iteration and searching methods
+        let mode = (fin - FIN_EXT) % N_FIN_EXT;
+        let k = ((fin - FIN_EXT) / N_FIN_EXT) as usize % (m + 2);
+        let mut n = 0usize;
+        match mode {
+            0 => it.for_each(|x| items.push(f(x))),
+            1 => it.rev().for_each(|x| items.push(f(x))),
+            2 | 3 => {
+                // find / rfind the k-th element from that end, then the rest
+                let x = if mode == 2 {
+                    it.find(|_| {
+                        n += 1;
+                        n > k
+                    })
+                } else {
+                    it.rfind(|_| {
+                        n += 1;
+                        n > k
+                    })
+                };
+                items.extend(x.map(&mut *f));
+                lens.push(it.len());
+                items.extend(it.map(&mut *f));
+            }
+            4 => {
+                let p = it.position(|_| {
+                    n += 1;
+                    n > k
+                });
+                lens.push(p.map(|x| x + 1).unwrap_or(0));
+                lens.push(it.len());
+                items.extend(it.map(&mut *f));
+            }
+            5 | 6 => {
+                let b = if mode == 5 {
+                    it.any(|_| {
+                        n += 1;
+                        n > k
+                    })
+                } else {
+                    it.all(|_| {
+                        n += 1;
+                        n <= k
+                    })
+                };
+                lens.push(b as usize);
+                lens.push(it.len());
+                items.extend(it.rev().map(&mut *f));
+            }
+            7 => items.extend(
+                it.max_by_key(|_| {
+                    n += 1;
+                    n
+                })
+                .map(&mut *f),
+            ),
+            _ => {
+                // partial consumption from the back through an adaptor, then internal iteration
+                let c = it.by_ref().rev().take(k).count();
+                lens.push(c);
+                lens.push(it.len());
+                it.for_each(|x| items.push(f(x)));
+            }
+        }
+        return (items, lens, 0);
+    }
+    let mode = fin % N_FIN;
+    let arg = (fin / N_FIN) as usize; // 0..=16
+    let k = arg % (m + 3);
     match mode {
         0 => return (items, lens, it.count()),
         1 => items.extend(it.last().map(&mut *f)),
